@@ -5,7 +5,9 @@ package dissolve
 // of Submit / job outcomes / Close; the event log is replayed on the Coq model.
 
 import (
+	"context"
 	"errors"
+	"fmt"
 	"math/rand"
 	"sync/atomic"
 	"testing"
@@ -28,7 +30,7 @@ type c40Run struct {
 	d       *Dissolver
 	nw      int
 	notif   chan c40Notif
-	rel     map[uint64]chan bool
+	rel     map[uint64]chan int // 0 = return nil, k > 0 = return an error of kind k
 	fails   map[uint64]int
 	running map[uint64]bool
 	queued  int
@@ -38,6 +40,8 @@ type c40Run struct {
 	coq     []string
 	timeout bool
 	retries int
+	r       *rand.Rand
+	errKinds map[string]int
 	starts  int
 }
 
@@ -46,15 +50,44 @@ func (c *c40Run) log(e c40Ev, term string) {
 	c.coq = append(c.coq, term)
 }
 
+// the property is "executed until it returns success" for ANY error value
+type c40CustomErr struct{ code int }
+
+func (e *c40CustomErr) Error() string { return "c40 custom error " + fmt.Sprint(e.code) }
+
+var c40ErrNames = []string{"", "plain", "wrapped-plain", "context.Canceled", "context.DeadlineExceeded",
+	"wrapped-canceled", "wrapped-deadline", "custom-type", "joined-with-deadline"}
+
+func c40Err(kind int) error {
+	switch kind {
+	case 1:
+		return errors.New("c40 scripted failure")
+	case 2:
+		return fmt.Errorf("c40 wrap: %w", errors.New("inner"))
+	case 3:
+		return context.Canceled
+	case 4:
+		return context.DeadlineExceeded
+	case 5:
+		return fmt.Errorf("broker unsubscribe: %w", context.Canceled)
+	case 6:
+		return fmt.Errorf("broker unsubscribe: %w", context.DeadlineExceeded)
+	case 7:
+		return &c40CustomErr{code: 7}
+	default:
+		return errors.Join(errors.New("c40 joined"), context.DeadlineExceeded)
+	}
+}
+
 func (c *c40Run) job(id uint64) Job {
-	ch := make(chan bool)
+	ch := make(chan int)
 	c.rel[id] = ch
 	return func() error {
 		c.notif <- c40Notif{id: id, after: c.flag.Load()}
-		if <-ch {
-			return nil
+		if k := <-ch; k != 0 {
+			return c40Err(k)
 		}
-		return errors.New("c40 scripted failure")
+		return nil
 	}
 }
 
@@ -121,7 +154,14 @@ func (c *c40Run) finish(id uint64) {
 	if !ok && !c.closed {
 		c.queued++
 	}
-	c.rel[id] <- ok
+	kind := 0
+	if !ok {
+		kind = 1 + c.r.Intn(len(c40ErrNames)-1)
+		if c.errKinds != nil {
+			c.errKinds[c40ErrNames[kind]]++
+		}
+	}
+	c.rel[id] <- kind
 	c.settle()
 }
 
@@ -167,9 +207,9 @@ func (c *c40Run) anyRunning(r *rand.Rand) (uint64, bool) {
 	return ids[k], true
 }
 
-func c40Case(r *rand.Rand) (*c40Run, bool) {
-	c := &c40Run{nw: 1 + r.Intn(3), notif: make(chan c40Notif, 64), rel: map[uint64]chan bool{},
-		fails: map[uint64]int{}, running: map[uint64]bool{}}
+func c40Case(r *rand.Rand, errKinds map[string]int) (*c40Run, bool) {
+	c := &c40Run{nw: 1 + r.Intn(3), notif: make(chan c40Notif, 64), rel: map[uint64]chan int{}, r: r,
+		fails: map[uint64]int{}, running: map[uint64]bool{}, errKinds: errKinds}
 	c.d = New(c.nw)
 	_ = c.d.Run()
 	var next uint64
@@ -239,6 +279,7 @@ func TestVerifC40(t *testing.T) {
 	w := verifOpen(t, "C40")
 	defer w.Close()
 	timeouts, lateSeen := 0, 0
+	errKinds := map[string]int{}
 	for i := 0; i < w.N; i++ {
 		if !w.Want(i) {
 			continue
@@ -248,7 +289,7 @@ func TestVerifC40(t *testing.T) {
 			break
 		}
 		r := w.Rand(i)
-		c, drained := c40Case(r)
+		c, drained := c40Case(r, errKinds)
 		term := vApp("mkCase", vNat(c.nw), vList(c.coq), vBool(drained))
 		class := "open"
 		if c.closed {
@@ -267,6 +308,7 @@ func TestVerifC40(t *testing.T) {
 		w.Case(i, term, map[string]any{"workers": c.nw, "events": c.evs, "drained": drained, "timeout": c.timeout}, class, nontrivial)
 	}
 	w.Extra["driver_timeouts"] = timeouts
+	w.Extra["failure_error_kinds"] = errKinds
 	w.Extra["late_starts_in_controlled_runs"] = lateSeen
 	if w.only < 0 {
 		late, runs := c40Race(3000)
